@@ -453,6 +453,18 @@ def probe_twin(w, op):
             w.report({"C09"}, f"twin:detour|edit-raised:{type(e).__name__}|{cls}", repr(e))
             return
         tag = "detour"
+    if route in ("fresh", "detour"):
+        # the twin itself must be the graph the model says it is; if building
+        # or editing went wrong that is an editing defect, not an equality one
+        want = tm if route == "fresh" else m
+        try:
+            rv, problems = R.guarded(R.snapshot, t, ())
+            dd = R.diff_views(rv, want.view())
+        except Exception as e:  # noqa: BLE001
+            dd, problems = ["unreadable:" + type(e).__name__], []
+        if dd or problems:
+            w.report({"C09"}, f"twin:{route}|twin-incoherent|{','.join(sorted(set(dd) | set(problems)))}|{cls}", "")
+            return
     feat = _desc_tag(m)
     if not _eq_checks(w, g, t, cls, f"{tag}:{feat}", s, also_hash=full and bool(m.atoms)):
         pass
@@ -786,7 +798,7 @@ def probe_enant(w, op):
         if name == "e==e'":
             st, val = _call(w, lambda: e == e2)
             if st != "ok" or val is not True:
-                w.report({"C06"}, f"enantiomer|two-enantiomers-of-one-graph-unequal|{cls}", repr(val))
+                w.report({"C06", "C01"}, f"enantiomer|two-enantiomers-of-one-graph-unequal|{cls}", repr(val))
                 return
             continue
         st, val = _call(w, fn)
@@ -1205,7 +1217,7 @@ def _finish(w, gs):
     gs.data["done"] = True
     if w.real_enabled:
         for s in ins:
-            w.coherent(s, {"C09", gs.data.get("prop", "C05")}, gs.data["kind"], what="input-after-enumeration")
+            w.coherent(s, {"C09"}, gs.data["kind"], what="input-after-enumeration")
 
 
 def _on_exhausted(w, gs):
